@@ -33,7 +33,7 @@ def main(tier, seed):
     matrix.judge(run, "ValuesTrace", "adapters.values_", "run_row", rows, sig, corrupt, chunk=2500,
                  what=lambda t, s: json.dumps(t["item"])[:260], nontrivial=lambda t: json.dumps(t["item"], sort_keys=True))
     # strings and URLs: exact character content through quoting and escaping (rows and contract shared with C03)
-    crow = [r for r in matrix.enumerate_rows(run, "Content", "Content_%s.cfg" % tier) if r["pos"] in ("string", "url") and r["enc"] == "utf-8"]
+    crow = [r for r in matrix.enumerate_rows(run, "Content", "Content_%s.cfg" % tier) if r.get("kind") == "content" and r["pos"] in ("string", "url") and r["enc"] == "utf-8"]
     from checks import c03
     matrix.judge(run, "RoundTripTrace", "adapters.roundtrip", "run_content", crow, lambda t, s, c: c03.sig(t, s, c).replace("C03|", "C18|"), c03.corrupt,
                  what=c03.what, chunk=1500, nontrivial=lambda t: t["item"]["src"])
